@@ -70,6 +70,7 @@ class Sim:
             self.bg_started = 0
             self.live_bg = 0  # parked-or-running writer threads (Orbax commit threads + foreign ones)
             self.in_save = False  # main is inside solver.save()
+            self.cur_step = None  # label of the save most recently handed to the writer
             self.main_ident = threading.get_ident()
             self.foreign_started = 0
             self.done: set[int] = set()
@@ -101,6 +102,10 @@ class Sim:
         if threading.get_ident() == self.main_ident:
             # the thread executing solve() is never parked: what it does itself is program
             # order, not writer progress (parking it could only deadlock the run)
+            blocking = False
+        if name == f"delete:{self.cur_step}":
+            # files removed inside the directory of the very step that is being written are part
+            # of that write (an in-place write protocol), not retention deletion of an old step
             blocking = False
         if self.in_save and name.startswith("delete:"):
             # a deletion while the solver thread is inside save(): on the pinned tree retention
@@ -155,43 +160,52 @@ class Sim:
             self.cv.notify_all()
 
     # -- writer pipeline --------------------------------------------------------
+    def position(self, step: int) -> int:
+        """Where the writer of `step` is, from what can be observed: 4 finished, 3 parked before
+        deleting an expired step, 2 parked before the step rename, 1 parked before the item
+        commit, 0 parked at its entry, -1 running between two of these points."""
+        if step in self.done:
+            return 4
+        if any(g.startswith("delete:") and g != f"delete:{step}" for g in self.parked):
+            return 3
+        if f"step:{step}" in self.parked:
+            return 2
+        if f"item:{step}" in self.parked:
+            return 1
+        return 0 if self.entry_hold else -1
+
     def advance(self, step: int, phase: str) -> str:
         """Advance the in-flight asynchronous save of `step` to (at least) `phase`; main waits
-        until the writer is parked there (or finished).  Returns the phase actually reached."""
-        cur = self.phase_of.get(step, "W0")
-        if step in self.done:
-            cur = "W4"
+        until the writer is parked there (or further, if the write protocol has no such point,
+        or finished).  Returns the phase actually reached."""
         target = PHASES.index(phase)
-        it, st = f"item:{step}", f"step:{step}"
-        while PHASES.index(cur) < target and cur != "W4":
-            if cur == "W0":
-                with self.cv:
+        while True:
+            with self.cv:
+                pos = self.position(step)
+            if pos >= target and pos != -1:
+                break
+            with self.cv:
+                if pos == 0:
                     self.entry_hold = False
-                    self.cv.notify_all()
-                self.wait_for(lambda: it in self.parked or step in self.done or self._writer_vanished(), f"W1 of {step}")
-                if self._writer_vanished() and it not in self.parked and step not in self.done:
-                    # a save handed to a thread of mdpax's own making ended without writing
-                    # anything (the manager skipped the step): nothing is in flight
-                    self.done.add(step)
-                cur = "W1"
-            elif cur == "W1":
-                self.open_gate(it)
-                self.wait_for(lambda: st in self.parked or step in self.done, f"W2 of {step}")
-                cur = "W2"
-            elif cur == "W2":
-                self.open_gate(st)
-                self.wait_for(
-                    lambda: any(g.startswith("delete:") for g in self.parked) or step in self.done, f"W3 of {step}"
-                )
-                cur = "W3"
-            elif cur == "W3":
-                with self.cv:
+                elif pos == 1:
+                    self.open.add(f"item:{step}")
+                elif pos == 2:
+                    self.open.add(f"step:{step}")
+                elif pos == 3:
                     self.open_deletes = True
-                    self.cv.notify_all()
-                self.wait_for(lambda: step in self.done, f"W4 of {step}")
-                cur = "W4"
-            if step in self.done:
-                cur = "W4"
+                self.cv.notify_all()
+            before = pos
+
+            def moved():
+                p = self.position(step)
+                return (p != -1 and p != before) or self._writer_vanished()
+
+            self.wait_for(moved, f"writer of {step} to leave {PHASES[before] if before >= 0 else 'a running stretch'}")
+            if self._writer_vanished() and step not in self.done and self.position(step) == -1:
+                # a save handed to a thread of mdpax's own making ended without writing anything
+                with self.cv:
+                    self.done.add(step)
+        cur = PHASES[pos]
         self.phase_of[step] = cur
         return cur
 
